@@ -125,6 +125,9 @@ func aggregate(prop string, cfg PropConfig, reports []*FuncReport, known []Known
 						extra += fmt.Sprintf(" %s=%s/%dms", a.Solver, a.Result, a.Ms)
 					}
 					fmt.Printf("  %-70s %-10s %-22s %6dms%s\n", o.Name, in.Result, in.Solver, in.Ms, extra)
+					if in.Result != "discharged" {
+						fmt.Printf("      path: %s\n      goal: %s\n", strings.Join(in.Trace, " ; "), in.Goal)
+					}
 				}
 			}
 			res.Obligations++
@@ -210,6 +213,7 @@ func writeReplay(prop string, o *Oblig, in *ObligInstance, status, outDir string
 		"status":     status,
 		"where":      in.Where,
 		"goal":       in.Goal,
+		"path_events": in.Trace,
 		"smt_file":   in.File,
 		"solver":     in.Solver,
 		"answers":    in.Answers,
